@@ -867,13 +867,10 @@ public:
 			}
 			++len;
 			if (!space) continue;
-#if __cplusplus >= 201103L
-			*space = std::move(*pos);
-#else
-			space->operator = (static_cast<const identifier &>(*pos));
-			space->set_instance(pos->detach());
-#endif
-			pos->~item<T>();
+			/* entries are relocatable (buffer moves them the same way): no name allocation that may fail */
+			space->~item<T>();
+			memcpy(static_cast<void *>(space), static_cast<const void *>(pos), sizeof(*pos));
+			new (static_cast<void *>(pos)) item<T>();
 			++space;
 		}
 		if (!space) {
